@@ -1,7 +1,7 @@
 /-
   Lemmas/LinesSpec.lean — closed forms of the lines the reader yields on a fault-free stream:
-  structural line splitting at the byte 0x0A (`rawLines`; for UTF-16LE with one extra byte,
-  `rawLinesLE` / `leDangling`). Shared by C09 and C10.
+  structural line splitting at the byte 0x0A for UTF-8 (`rawLines`), and for UTF-16 the first
+  line as a structural scan with index parity (`scanBE`, `scanLE`). Shared by C09 and C10.
 -/
 import RosuModel.Lemmas.ReaderSpec
 namespace Rosu
@@ -88,14 +88,148 @@ theorem rawLines_split (bs : List UInt8) :
           simp only []
           cases p <;> simp [consHead]
 
-theorem linesSpec_nil (enc : Encoding) : linesSpec enc none [] = ([], none) := by
-  rw [linesSpec_unfold]; simp [rawSpec, untilSpec, splitAtLF]
+/-! ### the shape of a `splitAtLF` result -/
 
-/-- **UTF-8 / UTF-16BE:** the lines are the decoded, end-trimmed raw lines; no error. -/
-theorem linesSpec_rawLines (enc : Encoding) (henc : (enc == Encoding.utf16le) = false) (bs : List UInt8) :
-    linesSpec enc none bs = ((rawLines bs).map (currLine enc), none) := by
+/-- generic `splitAtLF`. -/
+def splitG {α : Type} (isLF : α → Bool) : List α → List α × Option (List α)
+  | [] => ([], none)
+  | a :: as => if isLF a then ([a], some as) else (a :: (splitG isLF as).1, (splitG isLF as).2)
+
+theorem splitAtLF_eq_splitG (bs : List UInt8) : splitAtLF bs = splitG isLFb bs := by
+  induction bs with
+  | nil => rfl
+  | cons x xs ih =>
+    simp only [splitAtLF, splitG, isLFb]
+    by_cases hx : (x == 0x0A) = true
+    · simp [hx]
+    · simp only [hx, Bool.false_eq_true, if_false, ih]
+
+theorem splitG_some_form {α : Type} (isLF : α → Bool) (l p rest : List α) (h : splitG isLF l = (p, some rest)) :
+    ∃ p' x, p = p' ++ [x] ∧ isLF x = true ∧ (∀ y ∈ p', isLF y = false) ∧ l = p ++ rest := by
+  induction l generalizing p with
+  | nil => simp [splitG] at h
+  | cons a as ih =>
+    simp only [splitG] at h
+    by_cases ha : isLF a = true
+    · simp [ha] at h
+      exact ⟨[], a, by simp [h.1], ha, by simp, by simp [← h.1, h.2]⟩
+    · simp only [ha, Bool.false_eq_true, if_false] at h
+      cases hs : splitG isLF as with
+      | mk p0 o =>
+        rw [hs] at h
+        simp at h
+        obtain ⟨h1, h2⟩ := h
+        subst h1; subst h2
+        obtain ⟨p', x, e1, e2, e3, e4⟩ := ih p0 hs
+        refine ⟨a :: p', x, by simp [e1], e2, ?_, by simp [e4]⟩
+        intro y hy
+        simp only [List.mem_cons] at hy
+        cases hy with
+        | inl h => subst h; simpa using ha
+        | inr h => exact e3 y h
+
+theorem splitG_none_form {α : Type} (isLF : α → Bool) (l p : List α) (h : splitG isLF l = (p, none)) :
+    p = l ∧ ∀ y ∈ l, isLF y = false := by
+  induction l generalizing p with
+  | nil => simp [splitG] at h; simp [h]
+  | cons a as ih =>
+    simp only [splitG] at h
+    by_cases ha : isLF a = true
+    · simp [ha] at h
+    · simp only [ha, Bool.false_eq_true, if_false] at h
+      cases hs : splitG isLF as with
+      | mk p0 o =>
+        rw [hs] at h
+        simp at h
+        obtain ⟨h1, h2⟩ := h
+        subst h1; subst h2
+        obtain ⟨e1, e2⟩ := ih p0 hs
+        refine ⟨by rw [e1], ?_⟩
+        intro y hy
+        simp only [List.mem_cons] at hy
+        cases hy with
+        | inl h => subst h; simpa using ha
+        | inr h => exact e2 y h
+
+theorem linesBy_splitG {α : Type} (isLF : α → Bool) (l : List α) :
+    linesBy isLF l =
+      match splitG isLF l with
+      | (p, some rest) => p :: linesBy isLF rest
+      | (p, none) => if p.isEmpty then [] else [p] := by
+  induction l with
+  | nil => simp [linesBy, splitG]
+  | cons x xs ih =>
+    simp only [linesBy, splitG]
+    by_cases hx : isLF x = true
+    · simp [hx]
+    · simp only [hx, Bool.false_eq_true, if_false, ih]
+      cases hs : splitG isLF xs with
+      | mk p o =>
+        cases o with
+        | some r => rfl
+        | none =>
+          simp only []
+          cases p <;> simp [consHead]
+
+theorem endsWithLF_append_lf (a : List UInt8) : endsWithLF (a ++ [0x0A]) = true := by
+  simp [endsWithLF]
+
+theorem endsWithLF_append_nonLF (a p : List UInt8) (hne : p ≠ []) (hp : ∀ y ∈ p, isLFb y = false) :
+    endsWithLF (a ++ p) = false := by
+  have hl : (a ++ p).getLast? = p.getLast? := by
+    cases p with
+    | nil => exact absurd rfl hne
+    | cons x xs =>
+      cases hg : (x :: xs).getLast? with
+      | none => simp at hg
+      | some z => simp [List.getLast?_append, hg]
+  unfold endsWithLF
+  rw [hl]
+  cases hg : p.getLast? with
+  | none => rfl
+  | some z =>
+    have hz : z ∈ p := List.mem_of_getLast? hg
+    have := hp z hz
+    simp only [isLFb] at this
+    simp only [beq_eq_false_iff_ne, ne_eq, Option.some.injEq]
+    intro e; subst e; simp at this
+
+theorem linesSpec_nil (enc : Encoding) : linesSpec enc none [] = ([], none) := by
+  rw [linesSpec_unfold]; simp [rawSpec, rawLoop, untilSpec, splitAtLF]
+
+/-! ### UTF-8: one `read_until` per line -/
+
+theorem rawSpec_utf8 (bs : List UInt8) :
+    rawSpec .utf8 bs none =
+      match splitAtLF bs with
+      | (p, some rest) => (.ok (some p), rest)
+      | (p, none) => (if p.isEmpty then .ok none else .ok (some p), []) := by
+  unfold rawSpec
+  simp only [rawLoop, untilSpec, List.nil_append]
+  cases hs : splitAtLF bs with
+  | mk p o =>
+    cases o with
+    | some rest =>
+      have hne := splitAtLF_some_ne_nil hs
+      have hends := splitAtLF_some_ends hs
+      have h1 : ¬ p.length = ([] : List UInt8).length := by
+        simp; exact hne
+      have h2 : p.isEmpty = false := by cases p <;> simp_all
+      simp [hends, h2]
+    | none =>
+      have hno := (splitAtLF_none_noLF hs).2
+      by_cases hp : p.isEmpty = true
+      · have : p = [] := by cases p <;> simp_all
+        subst this; simp
+      · have h1 : ¬ p.length = ([] : List UInt8).length := by
+          cases p <;> simp_all
+        simp [hno, hp]
+
+/-- **UTF-8:** the lines are the decoded, end-trimmed raw lines; no error. -/
+theorem linesSpec_rawLines (bs : List UInt8) :
+    linesSpec .utf8 none bs = ((rawLines bs).map (currLine .utf8), none) := by
   suffices h : ∀ n, ∀ bs : List UInt8, bs.length ≤ n →
-      linesSpec enc none bs = ((rawLines bs).map (currLine enc), none) from h _ bs (Nat.le_refl _)
+      linesSpec .utf8 none bs = ((rawLines bs).map (currLine .utf8), none) from h _ bs (Nat.le_refl _)
   intro n
   induction n with
   | zero =>
@@ -106,153 +240,173 @@ theorem linesSpec_rawLines (enc : Encoding) (henc : (enc == Encoding.utf16le) = 
   | succ n ih =>
     intro bs hl
     rw [linesSpec_unfold, rawLines_split]
-    cases hq : rawSpec enc bs none with
-    | mk r rest =>
-      have hlt : ∀ buf, r = .ok (some buf) → rest.length < bs.length := fun buf e => rawSpec_some_lt (e ▸ hq)
-      unfold rawSpec untilSpec at hq
-      cases hs : splitAtLF bs with
-      | mk p o =>
-        rw [hs] at hq
-        cases o with
-        | some r0 =>
-          have hne := splitAtLF_some_ne_nil hs
-          have : p.isEmpty = false := by cases p <;> simp_all
-          simp [this, henc] at hq
-          obtain ⟨h1, h2⟩ := hq
-          subst h1; subst h2
-          have := hlt p rfl
-          simp only []
-          rw [ih r0 (by omega)]
-          simp
-        | none =>
-          by_cases hp : p.isEmpty = true
-          · simp [hp] at hq
-            obtain ⟨h1, h2⟩ := hq
-            subst h1; subst h2
-            simp [hp]
-          · simp [hp, henc] at hq
-            obtain ⟨h1, h2⟩ := hq
-            subst h1; subst h2
-            simp [hp, linesSpec_nil]
+    have hq := rawSpec_utf8 bs
+    cases hs : splitAtLF bs with
+    | mk p o =>
+      rw [hs] at hq
+      cases o with
+      | some r0 =>
+        simp only [] at hq
+        have := rawSpec_some_lt hq
+        rw [hq]
+        simp only []
+        rw [ih r0 (by omega)]
+        simp
+      | none =>
+        simp only [] at hq
+        rw [hq]
+        by_cases hp : p.isEmpty = true
+        · simp [hp]
+        · simp [hp, linesSpec_nil]
 
-/-! ### UTF-16LE: one more byte after each 0x0A -/
+/-! ### UTF-16: the line ends at the first aligned `00 0A` / `0A 00` -/
 
-/-- the UTF-16LE reader ends on a 0x0A byte with no byte after it. -/
-def leDangling : List UInt8 → Bool
-  | [] => false
-  | b :: bs =>
-    if b == 0x0A then
-      match bs with
-      | [] => true
-      | _ :: r => leDangling r
-    else leDangling bs
+/-- UTF-16BE: scan with the line buffer so far; the line ends at a 0x0A at an odd index whose
+predecessor is 0x00. Returns the whole line buffer and the bytes after it. -/
+def scanBE : List UInt8 → List UInt8 → List UInt8 × List UInt8
+  | buf, [] => (buf, [])
+  | buf, b :: rest =>
+    if b == 0x0A && (buf.length % 2 == 1 && buf.getLast? == some 0) then (buf ++ [b], rest)
+    else scanBE (buf ++ [b]) rest
 
-def rawLinesLE : List UInt8 → List (List UInt8)
-  | [] => []
-  | b :: bs =>
-    if b == 0x0A then
-      match bs with
-      | [] => [[b]]
-      | c :: r => [b, c] :: rawLinesLE r
-    else consHead b (rawLinesLE bs)
+/-- UTF-16LE: the line ends at a 0x0A at an even index followed by 0x00 (or by end of input). -/
+def scanLE : List UInt8 → List UInt8 → List UInt8 × List UInt8
+  | buf, [] => (buf, [])
+  | buf, b :: rest =>
+    if b == 0x0A && buf.length % 2 == 0 then
+      match rest with
+      | [] => (buf ++ [b], [])
+      | c :: rest' => if c == 0 then (buf ++ [b, c], rest') else scanLE (buf ++ [b, c]) rest'
+    else scanLE (buf ++ [b]) rest
 
-theorem leDangling_split (bs : List UInt8) :
-    leDangling bs =
-      match splitAtLF bs with
-      | (_, some []) => true
-      | (_, some (_ :: r)) => leDangling r
-      | (_, none) => false := by
-  induction bs with
-  | nil => simp [leDangling, splitAtLF]
-  | cons x xs ih =>
-    by_cases hx : (x == 0x0A) = true
-    · cases xs <;> simp [leDangling, splitAtLF, hx]
-    · have e : leDangling (x :: xs) = leDangling xs := by cases xs <;> simp [leDangling, hx]
-      rw [e, ih]
-      simp only [splitAtLF, hx, Bool.false_eq_true, if_false]
-      cases hs : splitAtLF xs with
-      | mk p o =>
-        cases o with
-        | none => rfl
-        | some r => cases r <;> rfl
+theorem scanBE_skip (buf p x : List UInt8) (hp : ∀ y ∈ p, isLFb y = false) :
+    scanBE buf (p ++ x) = scanBE (buf ++ p) x := by
+  induction p generalizing buf with
+  | nil => simp
+  | cons a p ih =>
+    have ha : (a == 0x0A) = false := hp a (by simp)
+    simp only [List.cons_append, scanBE, ha, Bool.false_and, Bool.false_eq_true, if_false]
+    rw [ih _ (fun y hy => hp y (by simp [hy]))]
+    simp
 
-theorem rawLinesLE_split (bs : List UInt8) :
-    rawLinesLE bs =
-      match splitAtLF bs with
-      | (p, some []) => [p]
-      | (p, some (c :: r)) => (p ++ [c]) :: rawLinesLE r
-      | (p, none) => if p.isEmpty then [] else [p] := by
-  induction bs with
-  | nil => simp [rawLinesLE, splitAtLF]
-  | cons x xs ih =>
-    by_cases hx : (x == 0x0A) = true
-    · cases xs <;> simp [rawLinesLE, splitAtLF, hx]
-    · have e : rawLinesLE (x :: xs) = consHead x (rawLinesLE xs) := by cases xs <;> simp [rawLinesLE, hx]
-      rw [e, ih]
-      simp only [splitAtLF, hx, Bool.false_eq_true, if_false]
-      cases hs : splitAtLF xs with
-      | mk p o =>
-        cases o with
-        | none => simp only []; cases p <;> simp [consHead]
-        | some r => cases r <;> rfl
+theorem scanLE_skip (buf p x : List UInt8) (hp : ∀ y ∈ p, isLFb y = false) :
+    scanLE buf (p ++ x) = scanLE (buf ++ p) x := by
+  induction p generalizing buf with
+  | nil => simp
+  | cons a p ih =>
+    have ha : (a == 0x0A) = false := hp a (by simp)
+    have e : scanLE buf (a :: (p ++ x)) = scanLE (buf ++ [a]) (p ++ x) := by
+      cases hr : p ++ x <;> simp [scanLE, ha]
+    simp only [List.cons_append, e]
+    rw [ih _ (fun y hy => hp y (by simp [hy]))]
+    simp
 
-/-- **UTF-16LE:** reading ends with `UnexpectedEof` exactly on a dangling 0x0A; otherwise the lines
-are the decoded raw lines. -/
-theorem linesSpec_rawLinesLE (bs : List UInt8) :
-    (linesSpec .utf16le none bs).2 = (if leDangling bs then some IoKind.unexpectedEof else none) ∧
-    (leDangling bs = false →
-      (linesSpec .utf16le none bs).1 = (rawLinesLE bs).map (currLine .utf16le)) := by
-  suffices h : ∀ n, ∀ bs : List UInt8, bs.length ≤ n →
-      (linesSpec .utf16le none bs).2 = (if leDangling bs then some IoKind.unexpectedEof else none) ∧
-      (leDangling bs = false →
-        (linesSpec .utf16le none bs).1 = (rawLinesLE bs).map (currLine .utf16le)) from h _ bs (Nat.le_refl _)
-  intro n
-  induction n with
-  | zero =>
-    intro bs hl
-    have : bs = [] := List.eq_nil_of_length_eq_zero (by omega)
-    subst this
-    rw [linesSpec_nil]; simp [leDangling, rawLinesLE]
+theorem rawLoop_scanBE (f : Nat) (bs buf : List UInt8) (hf : bs.length < f) :
+    rawLoop .utf16be none f bs buf = (.ok (scanBE buf bs).1, (scanBE buf bs).2) := by
+  induction f generalizing bs buf with
+  | zero => omega
   | succ n ih =>
-    intro bs hl
-    rw [linesSpec_unfold, rawLinesLE_split, leDangling_split]
-    cases hq : rawSpec .utf16le bs none with
-    | mk r rest =>
-      have hlt : ∀ buf, r = .ok (some buf) → rest.length < bs.length := fun buf e => rawSpec_some_lt (e ▸ hq)
-      unfold rawSpec untilSpec at hq
-      cases hs : splitAtLF bs with
-      | mk p o =>
-        rw [hs] at hq
-        cases o with
-        | some r0 =>
-          have hne := splitAtLF_some_ne_nil hs
-          have hends := splitAtLF_some_ends hs
-          have : p.isEmpty = false := by cases p <;> simp_all
-          cases r0 with
-          | nil =>
-            simp [this, hends, byteSpec] at hq
-            obtain ⟨h1, h2⟩ := hq
-            subst h1; subst h2
-            simp
-          | cons c r1 =>
-            simp [this, hends, byteSpec] at hq
-            obtain ⟨h1, h2⟩ := hq
-            subst h1; subst h2
-            have := hlt _ rfl
-            obtain ⟨i1, i2⟩ := ih r1 (by omega)
-            simp only []
-            refine ⟨i1, fun hd => ?_⟩
-            rw [i2 hd]; simp
-        | none =>
-          have hno := (splitAtLF_none_noLF hs).2
-          by_cases hp : p.isEmpty = true
-          · simp [hp] at hq
-            obtain ⟨h1, h2⟩ := hq
-            subst h1; subst h2
-            simp [hp]
-          · simp [hp, hno] at hq
-            obtain ⟨h1, h2⟩ := hq
-            subst h1; subst h2
-            simp [hp, linesSpec_nil]
+    simp only [rawLoop, untilSpec]
+    cases hs : splitAtLF bs with
+    | mk p o =>
+      have hs' := hs
+      rw [splitAtLF_eq_splitG] at hs'
+      cases o with
+      | none =>
+        obtain ⟨e1, e2⟩ := splitG_none_form _ _ _ hs'
+        subst e1
+        simp only []
+        by_cases hp : p = []
+        · subst hp; simp [scanBE]
+        · have h1 : ¬ (buf ++ p).length = buf.length := by
+            have := List.length_pos_iff.mpr hp
+            simp; omega
+          have h2 := endsWithLF_append_nonLF buf p hp e2
+          have h3 := scanBE_skip buf p [] e2
+          simp only [List.append_nil] at h3
+          simp [h2, h3, scanBE]
+      | some rest =>
+        obtain ⟨p', x, e1, e2, e3, e4⟩ := splitG_some_form _ _ _ _ hs'
+        have hx : x = 0x0A := by simpa [isLFb] using e2
+        subst hx; subst e1
+        have h1 : ¬ (buf ++ (p' ++ [0x0A])).length = buf.length := by simp
+        have h2 : endsWithLF (buf ++ (p' ++ [0x0A])) = true := by
+          rw [← List.append_assoc]; exact endsWithLF_append_lf _
+        have hd : (buf ++ (p' ++ [0x0A])).dropLast = buf ++ p' := by
+          rw [← List.append_assoc]; simp
+        have hlen : rest.length < n := by
+          rw [e4] at hf; simp at hf; omega
+        simp only [h1, if_false, h2, Bool.not_true, Bool.false_eq_true, hd]
+        rw [e4, List.append_assoc, scanBE_skip buf p' _ e3]
+        simp only [List.singleton_append, scanBE, BEq.rfl, Bool.true_and]
+        split
+        · simp [List.append_assoc]
+        · rw [ih rest _ hlen]; simp [List.append_assoc]
+
+theorem rawLoop_scanLE (f : Nat) (bs buf : List UInt8) (hf : bs.length < f) :
+    rawLoop .utf16le none f bs buf = (.ok (scanLE buf bs).1, (scanLE buf bs).2) := by
+  induction f generalizing bs buf with
+  | zero => omega
+  | succ n ih =>
+    simp only [rawLoop, untilSpec]
+    cases hs : splitAtLF bs with
+    | mk p o =>
+      have hs' := hs
+      rw [splitAtLF_eq_splitG] at hs'
+      cases o with
+      | none =>
+        obtain ⟨e1, e2⟩ := splitG_none_form _ _ _ hs'
+        subst e1
+        simp only []
+        by_cases hp : p = []
+        · subst hp; simp [scanLE]
+        · have h1 : ¬ (buf ++ p).length = buf.length := by
+            have := List.length_pos_iff.mpr hp
+            simp; omega
+          have h2 := endsWithLF_append_nonLF buf p hp e2
+          have h3 := scanLE_skip buf p [] e2
+          simp only [List.append_nil] at h3
+          simp [h2, h3, scanLE]
+      | some rest =>
+        obtain ⟨p', x, e1, e2, e3, e4⟩ := splitG_some_form _ _ _ _ hs'
+        have hx : x = 0x0A := by simpa [isLFb] using e2
+        subst hx; subst e1
+        have h1 : ¬ (buf ++ (p' ++ [0x0A])).length = buf.length := by simp
+        have h2 : endsWithLF (buf ++ (p' ++ [0x0A])) = true := by
+          rw [← List.append_assoc]; exact endsWithLF_append_lf _
+        have hd : (buf ++ (p' ++ [0x0A])).dropLast = buf ++ p' := by
+          rw [← List.append_assoc]; simp
+        have hlen : rest.length < n := by
+          rw [e4] at hf; simp at hf; omega
+        simp only [h1, if_false, h2, Bool.not_true, Bool.false_eq_true, hd]
+        rw [e4, List.append_assoc, scanLE_skip buf p' _ e3]
+        simp only [List.singleton_append]
+        by_cases hev : ((buf ++ p').length % 2 == 0) = true
+        · simp only [hev, if_true]
+          cases rest with
+          | nil => simp [scanLE, nextByteSpec, List.append_assoc]
+          | cons c rest' =>
+            simp only [nextByteSpec, scanLE, BEq.rfl, hev, Bool.true_and, if_true]
+            by_cases hc : (c == 0) = true
+            · simp [hc, List.append_assoc]
+            · simp only [hc, Bool.false_eq_true, if_false]
+              rw [ih rest' _ (by simp at hlen; omega)]
+              simp [List.append_assoc]
+        · simp only [hev, Bool.false_eq_true, if_false]
+          have hev' : ¬ (buf.length + p'.length) % 2 = 0 := by simpa using hev
+          have e : scanLE (buf ++ p') (0x0A :: rest) = scanLE (buf ++ p' ++ [0x0A]) rest := by
+            cases rest <;> simp [scanLE, hev']
+          rw [e, ih rest _ hlen]; simp [List.append_assoc]
+
+/-- `read_line` on a fault-free UTF-16 stream: the scan from an empty buffer. -/
+theorem rawSpec_utf16 (le : Bool) (bs : List UInt8) :
+    rawSpec (if le then .utf16le else .utf16be) bs none =
+      (if ((if le then scanLE [] bs else scanBE [] bs).1).isEmpty then .ok none
+        else .ok (some (if le then scanLE [] bs else scanBE [] bs).1),
+       (if le then scanLE [] bs else scanBE [] bs).2) := by
+  unfold rawSpec
+  cases le with
+  | true => simp only [if_true]; rw [rawLoop_scanLE _ _ _ (Nat.lt_succ_self _)]
+  | false => simp only [Bool.false_eq_true, if_false]; rw [rawLoop_scanBE _ _ _ (Nat.lt_succ_self _)]
 
 end Rosu
